@@ -207,18 +207,20 @@ type PodRecord struct {
 	CycleOutcome string    `json:"realCycleOutcome,omitempty"` // "" (not sampled) | placed | unplaced
 	Idem         string    `json:"mutateIdempotence"`          // "same" | "n/a" | description of the difference
 	Findings     []string  `json:"findings,omitempty"`
-	fs           []Finding
-	expCont      string // oracle: name of the container that must receive the share ("" = unknown/missing)
-	fracD        denoted
-	memK         numKind
-	memV         *big.Int
-	devK         numKind
-	devV         *big.Int
-	sharing      bool    // a sharing annotation is present
-	valid        bool    // every present sharing annotation denotes an in-range finite positive quantity
-	expDev       int64   // denoted device count when it fits (else -1)
-	expFrac      float64 // denoted fraction (valid fraction pods)
-	expMem       int64   // denoted memory when it fits (else -1)
+	// NameCollision: the bind failed because two random reservation pod names collided; the binder clauses are not judged
+	NameCollision bool `json:"reservationNameCollision,omitempty"`
+	fs            []Finding
+	expCont       string // oracle: name of the container that must receive the share ("" = unknown/missing)
+	fracD         denoted
+	memK          numKind
+	memV          *big.Int
+	devK          numKind
+	devV          *big.Int
+	sharing       bool    // a sharing annotation is present
+	valid         bool    // every present sharing annotation denotes an in-range finite positive quantity
+	expDev        int64   // denoted device count when it fits (else -1)
+	expFrac       float64 // denoted fraction (valid fraction pods)
+	expMem        int64   // denoted memory when it fits (else -1)
 }
 
 func (r *PodRecord) add(oracle, sig, format string, a ...any) {
@@ -543,6 +545,12 @@ func (r *PodRecord) judgeBinder(b *BindView, nodeGPUMem int64, inp, verd func() 
 	}
 	if b.ValidateErr != "" {
 		r.add("binder-rejects", "binder-rejects:validate", "binder ValidateGpuRequests rejects an admitted pod: %s. %s | %s", b.ValidateErr, inp(), verd())
+	}
+	if b.BindErr != "" && strings.Contains(b.BindErr, "gpu-reservation-") && strings.Contains(b.BindErr, "already exists") {
+		// the binder names reservation pods <prefix><5 random characters>; with hundreds of them in one store two names
+		// collide now and then (1 case in 10 000). That says nothing about how the GPU request was read: not judged
+		r.NameCollision = true
+		return
 	}
 	if b.BindErr != "" {
 		r.add("binder-rejects", "binder-rejects:bind:"+bindErrClass(b.BindErr), "the binder fails to bind an admitted pod the scheduler placed%s: %s. %s | %s", src, b.BindErr, inp(), verd())
